@@ -9,6 +9,16 @@ static long nfail;
 static uint8_t *IN, *TMP, *TMP2;
 static char in_name[64];
 
+static int part_is(const char *n)
+{
+	if (!v_part)
+		return 1;
+	size_t l = strlen(n);
+	for (const char *q = v_part; q; q = strchr(q, ',') ? strchr(q, ',') + 1 : NULL)
+		if (!strncmp(q, n, l) && (q[l] == 0 || q[l] == ','))
+			return 1;
+	return 0;
+}
 static void fault_violation(const char *key)
 {
 	v_violation(key, "%s", v_fault_desc());
@@ -238,10 +248,128 @@ out:
 	g_strict_free = 0;
 }
 
+/* (iii) streaming with LARGE chunks (the codec compresses straight from the caller's buffer once enough of it has been consumed,
+ * and a block opened in one call may be closed - possibly as a stored block copied from the input - in the next). The chunk
+ * boundary is swept byte by byte across the block boundaries that the codec itself chose for this input (found by decoding a
+ * one-call compression with the reference), each chunk lives in its own exact-size mapping, and a consumed chunk is revoked. */
+#define BIGN 480000
+static uint64_t big_unit;
+static void revoked_big(int level, int lbc, int cpu, int kind, int flushA, int three, int placement_end)
+{
+	char key[300], why[256];
+	int N = BIGN;
+	if (kind == 0)
+		fill_xorshift(IN, N, 77 + level);
+	else
+		fill_mixed(IN, N, 5 + level);
+	cpu_set_level(cpu);
+	/* calibration: where does the codec put its block boundaries for this input and level buffer? */
+	struct cparams p = { level, NO_FLUSH, IGZIP_GZIP, 0, 0, lbc, API_ONECALL, 0, 0 };
+	size_t ol;
+	struct isal_zstream *cs;
+	int r = c_deflate(&p, IN, N, TMP, 1100000, &ol, &cs);
+	if (r != COMP_OK || !verify_deflate_output(TMP, ol, IGZIP_GZIP, IN, N, 0, 0, NULL, 0, why, sizeof why)) {
+		snprintf(key, sizeof key, "revoked-big calibration level=%d lbuf=%s cpu=%s", level, lb_name[lbc], cpu_level_name[cpu]);
+		v_violation(key, "one-call compression failed or rejected: %d %s", r, why);
+		nfail++;
+		g_reset();
+		return;
+	}
+	g_reset();
+	size_t bnd[4];
+	int nb = 0;
+	for (int i = 1; i < vs_res.nblocks && i < RI_MAXBLK && nb < (v_thorough ? 3 : 1); i++)
+		if (vs_res.blk[i].out_start > 2000 && vs_res.blk[i].out_start + 300000 < (size_t)N && (!nb || vs_res.blk[i].out_start > bnd[nb - 1] + 6000))
+			bnd[nb++] = vs_res.blk[i].out_start;
+	v_max("big_chunk_block_boundaries_found", nb);
+	if (v_shard == 0)
+		v_count("big_chunk_configurations", 1);
+	/* candidate first-chunk lengths: a window around each boundary byte by byte + a coarse sweep of everything */
+	static int *as;
+	static uint8_t *mark;
+	if (!as) { as = malloc(sizeof(int) * 60000); mark = malloc(BIGN); }
+	memset(mark, 0, BIGN);
+	int na = 0;
+	for (int b = 0; b < nb; b++) {
+		long lo = (long)bnd[b] - (v_thorough ? 64 : 16), hi = (long)bnd[b] + (v_thorough ? 4700 : 900);
+		for (long a = lo; a <= hi; a++)
+			if (a > 0 && a + 300000 < N && !mark[a]) { mark[a] = 1; as[na++] = (int)a; }
+	}
+	for (long a = 1; a + 300000 < N; a += (v_thorough ? 1021 : 8191))
+		if (!mark[a]) { mark[a] = 1; as[na++] = (int)a; }
+	static struct isal_zstream *s;
+	static uint8_t *lb;
+	if (!s) { s = g_persist(sizeof *s, G_END); lb = g_persist(ISAL_DEF_LVL3_EXTRA_LARGE, G_END); }
+	uint32_t lbs = level ? lb_size(level, lbc) : 0;
+	g_strict_free = 1;
+	for (int ai = 0; ai < na; ai++) {
+		if (!v_mine(big_unit++))
+			continue;
+		if (nfail > 20 || v_deadline_hit())
+			break;
+		size_t pieces[3] = { (size_t)as[ai], three ? 70001 : (size_t)N - as[ai], 0 };
+		if (three)
+			pieces[2] = N - pieces[0] - pieces[1];
+		snprintf(key, sizeof key, "revoked-big isal_deflate level=%d lbuf=%s first-flush=%s cpu=%s input=%s:%d later-pieces=%s-flush pieces=%zu,%zu,%zu (first boundary chosen by the codec at %zu)", level, lb_name[lbc], flush_name[flushA], cpu_level_name[cpu], kind ? "mixed" : "incompressible", N, placement_end ? "end" : "start", pieces[0], pieces[1], pieces[2], nb ? bnd[0] : 0);
+		size_t ip = 0, out_l = 0;
+		int pi = 0, calls = 0;
+		r = 0;
+		if (!V_TRY()) {
+			fault_violation(key);
+			g_reset();
+			continue;
+		}
+		isal_deflate_init(s);
+		s->level = level; s->level_buf = level ? lb + ISAL_DEF_LVL3_EXTRA_LARGE - lbs : NULL; s->level_buf_size = lbs;
+		s->gzip_flag = IGZIP_GZIP;
+		s->avail_in = 0;
+		while (s->internal_state.state != ZSTATE_END && calls++ < 1000) {
+			uint8_t *in;
+			if (s->avail_in == 0) {
+				size_t k = pi < 3 ? pieces[pi] : 0;
+				g_reset(); /* the previous chunk is consumed: revoke it */
+				/* first piece ends at a guard page; later pieces START at one (a read behind the chunk faults) */
+				in = g_alloc(k, pi == 0 || placement_end ? G_END : G_START);
+				memcpy(in, IN + ip, k);
+				s->next_in = in; s->avail_in = k;
+				s->flush = pi == 0 ? flushA : NO_FLUSH;
+				ip += k;
+				pi++;
+			} else {
+				uint32_t left = s->avail_in;
+				memcpy(TMP2, s->next_in, left);
+				g_reset();
+				in = g_alloc(left, placement_end ? G_END : G_START);
+				memcpy(in, TMP2, left);
+				s->next_in = in;
+			}
+			s->end_of_stream = ip >= (size_t)N;
+			s->next_out = TMP + out_l; s->avail_out = 1100000 - out_l;
+			r = isal_deflate(s);
+			out_l = 1100000 - s->avail_out;
+			if (r)
+				break;
+		}
+		V_END();
+		g_reset();
+		v_eval();
+		if (r != COMP_OK || s->internal_state.state != ZSTATE_END) {
+			v_violation(key, "return %d state %d after %d calls", r, s->internal_state.state, calls);
+			nfail++;
+		} else if (!verify_deflate_output(TMP, out_l, IGZIP_GZIP, IN, N, 0, 0, NULL, 0, why, sizeof why)) {
+			v_violation(key, "output rejected by the reference decoder: %s", why);
+			nfail++;
+		}
+		v_count("big_chunk_schedules", 1);
+		v_nontrivial(v_mix(v_hash(key, strlen(key), 0), 5));
+	}
+	g_strict_free = 0;
+}
+
 int main(int argc, char **argv)
 {
 	v_init(argc, argv, "C05");
-	IN = malloc(210000); TMP = malloc(700000); TMP2 = malloc(210000);
+	IN = malloc(BIGN + 64); TMP = malloc(1100000); TMP2 = malloc(BIGN + 64);
 	g_canary_span = 512;
 #ifdef VERIF_FLAVOUR_NOARCH
 	static const int cpus[] = { CPU_BASE };
@@ -270,13 +398,36 @@ int main(int argc, char **argv)
 					isal_update_histogram(IN, len, &h);
 					isal_create_hufftables(&c_custom_ht, &h);
 				}
-				if (!v_part || !strcmp(v_part, "exact"))
+				if (part_is("exact"))
 					exact_fit(len, cpus[ci]);
-				if ((!v_part || !strcmp(v_part, "revoke")) && (len == 300 || len == 600 || len == 4096 || len == 9 || len == 258 || (v_thorough && len >= 1000)))
+				if (part_is("revoke") && (len == 300 || len == 600 || len == 4096 || len == 9 || len == 258 || (v_thorough && len >= 1000)))
 					revoked_chunks(len, cpus[ci]);
 			}
 		}
-	if (v_thorough)
+	if (part_is("bigchunks")) {
+		static const int lbcs[] = { LB_DEFAULT, LB_MEDIUM, LB_SMALL, LB_XL };
+		for (int level = 1; level <= 3; level++)
+			for (int lbi = 0; lbi < (v_thorough ? 4 : 2); lbi++)
+				for (int ci = 0; ci < ncpu; ci++)
+					for (int kind = 0; kind < 2; kind++)
+						for (int fl = 0; fl < 3; fl++)
+							for (int three = 0; three < 2; three++) {
+								if (!v_thorough && (ncpu > 1 && cpus[ci] != CPU_BASE && cpus[ci] != CPU_AVX2 && cpus[ci] != CPU_AVX512))
+									continue;
+								if (!v_thorough && (kind || fl || (three && !(level == 3 && lbi == 0))))
+									continue;
+#ifdef VERIF_FLAVOUR_NOARCH
+								if (!v_thorough && !((level == 3 && lbi == 0) || (level == 1 && lbi == 1)))
+									continue;
+#endif
+								if (nfail > 20 || v_deadline_hit())
+									goto done;
+								revoked_big(level, lbcs[lbi], cpus[ci], kind, fl, three, 0);
+								if (v_thorough)
+									revoked_big(level, lbcs[lbi], cpus[ci], kind, fl, three, 1);
+							}
+	}
+	if (v_thorough && part_is("exact"))
 		for (int li = 0; li < N_BIG_LENS; li += 2) {
 			if (!v_mine(unit++))
 				continue;
@@ -290,6 +441,8 @@ done:
 		v_sample("exact-fit isal_deflate_stateless level=3 wrapper=gzip_no_hdr: stream struct, level_buf (exactly ISAL_DEF_LVL3_MIN), read-only input, custom hufftables (read-only) and output (exactly the documented bound) each end at an inaccessible page");
 		v_sample("exact-fit isal_inflate_stateless: input is exactly the stream (no slop bytes behind it, read-only), output exactly the decoded length");
 		v_sample("revoked-chunks isal_deflate level=2 cin=7 cout=17 flush=SYNC_FLUSH: every input chunk lives in its own exact-size mapping that becomes PROT_NONE once recycled; unconsumed tails are moved to fresh mappings");
+		v_sample("revoked-big isal_deflate level=3 lbuf=DEFAULT first-flush=NO_FLUSH cpu=avx2 input=incompressible:345000 pieces=130208,214792,0: the first chunk's mapping is PROT_NONE during the second call; the block opened in call 1 is closed in call 2");
+		v_note("big-chunk part: the first-chunk length is swept byte by byte over a window behind each block boundary the codec chose (calibrated by decoding a one-call compression with the reference) plus a coarse sweep of all other lengths; a read of the consumed chunk faults");
 		v_note("page-granular guards cannot see overflows inside the context structs: those are covered by running the same harness on the portable-C flavour under AddressSanitizer/UBSan (flavour noarch); the rel flavour (NDEBUG) shows what the shipped Makefile.unx library does without asserts");
 		v_note("the kernel sweeps (CRC, erasure code, RAID, zero detect: every length 0..N x end-flush and start-flush placements x every variant) run as additional parts of this check");
 	}
